@@ -54,9 +54,13 @@ pub fn string(r: &mut Rng) -> String {
 }
 
 pub const FILES: &[&str] = &["", "out.csv", "dir/file.txt", "a b", "quo\"te", "back\\slash", "new\nline", "tab\there", "é→漢🙂.txt", "cr\rlf", "'x'"];
-/// file names: only characters whose `{:?}` rendering the model reproduces
+/// file names
 pub fn file_string(r: &mut Rng) -> String {
-    (*r.pick(FILES)).to_string()
+    if r.chance(1, 2) {
+        (*r.pick(FILES)).to_string()
+    } else {
+        string(r)
+    }
 }
 
 pub const I64S: &[i64] = &[0, 1, -1, 42, i64::MAX, i64::MIN, i64::MAX - 1, i64::MIN + 1, 1 << 53, -(1 << 31), 1 << 32, 1_000_000_000_000_000_000];
